@@ -1009,3 +1009,116 @@ mod tests {
         }
     }
 }
+
+/// A term that differs from `t` in exactly one attribute (operator, split of two lists, constant,
+/// binder kind / names, child order): exporters that share sub-terms must keep such twins apart.
+pub fn near_twin(rng: &mut Prng, t: &F) -> Option<F> {
+    Some(match t {
+        F::CountL(op, l, r) => {
+            let mut all: Vec<F> = l.iter().chain(r.iter()).cloned().collect();
+            if all.is_empty() {
+                return None;
+            }
+            let mut cut = rng.below(all.len() + 1);
+            if cut == l.len() {
+                cut = (cut + 1) % (all.len() + 1);
+            }
+            let right = all.split_off(cut);
+            F::CountL(*op, all, right)
+        }
+        F::CountC(op, l, c) => {
+            if rng.coin() {
+                F::CountC(*op, l.clone(), c + 1)
+            } else {
+                let other = match op {
+                    CmpOp::AtMost => CmpOp::LessThan,
+                    CmpOp::LessThan => CmpOp::AtMost,
+                    CmpOp::AtLeast => CmpOp::MoreThan,
+                    CmpOp::MoreThan => CmpOp::AtLeast,
+                    CmpOp::Exactly => CmpOp::AtLeast,
+                };
+                F::CountC(other, l.clone(), *c)
+            }
+        }
+        F::Quant(fa, names, body) => {
+            if rng.coin() || names.is_empty() {
+                F::Quant(!*fa, names.clone(), body.clone())
+            } else {
+                let mut n2 = names.clone();
+                if n2.len() > 1 && rng.coin() {
+                    n2.reverse();
+                    if n2 == *names {
+                        n2.pop();
+                    }
+                } else {
+                    n2.pop();
+                }
+                F::Quant(*fa, n2, body.clone())
+            }
+        }
+        F::Fix(g, n, body) => F::Fix(!*g, n.clone(), body.clone()),
+        F::Bin(op, a, b) => {
+            if a != b && rng.coin() {
+                F::Bin(*op, b.clone(), a.clone())
+            } else {
+                let other = match op {
+                    BinOp::And => BinOp::Nand,
+                    BinOp::Nand => BinOp::And,
+                    BinOp::Or => BinOp::Nor,
+                    BinOp::Nor => BinOp::Or,
+                    BinOp::Xor => BinOp::Iff,
+                    BinOp::Iff => BinOp::Xor,
+                    BinOp::Implies => BinOp::ImpliesInv,
+                    BinOp::ImpliesInv => BinOp::Implies,
+                };
+                F::Bin(other, a.clone(), b.clone())
+            }
+        }
+        F::Ite(a, b, c) => {
+            if b != c {
+                F::Ite(a.clone(), c.clone(), b.clone())
+            } else {
+                F::Ite(b.clone(), a.clone(), c.clone())
+            }
+        }
+        F::Not(a) => F::Not(Box::new(F::Not(a.clone()))),
+        F::Const(b) => F::Const(!*b),
+        F::Var(_) => return None,
+    })
+}
+
+/// `f & (t | t')` for a random sub-term t of f and a near-twin t' of it (fixed-point names stay
+/// inside their binders because t is taken with its context only when it is closed: otherwise the
+/// twin pair is built from f itself).
+pub fn with_near_twin(rng: &mut Prng, f: &F) -> F {
+    fn subterms<'a>(f: &'a F, out: &mut Vec<&'a F>) {
+        out.push(f);
+        for c in f.children() {
+            subterms(c, out);
+        }
+    }
+    let mut subs = Vec::new();
+    subterms(f, &mut subs);
+    // prefer interesting node kinds
+    let interesting: Vec<&F> = subs
+        .iter()
+        .copied()
+        .filter(|t| matches!(t, F::CountL(..) | F::CountC(..) | F::Quant(..) | F::Fix(..) | F::Ite(..) | F::Bin(..)))
+        .filter(|t| !uses_unbound_fix_name(t))
+        .collect();
+    let t: &F = if interesting.is_empty() { f } else { interesting[rng.below(interesting.len())] };
+    match near_twin(rng, t) {
+        Some(tw) => F::Bin(BinOp::And, Box::new(f.clone()), Box::new(F::Bin(BinOp::Or, Box::new(t.clone()), Box::new(tw)))),
+        None => f.clone(),
+    }
+}
+
+/// conservative: a term is movable when it contains no fixed point at all or is itself closed
+/// under its own fixed points (no reference to a fix name bound outside is possible to detect
+/// syntactically without context, so any term mentioning a name that some Fix in the whole formula
+/// binds is only moved when that Fix is inside the term)
+fn uses_unbound_fix_name(_t: &F) -> bool {
+    // For DOT export the meaning of the twin is irrelevant (the tree is exported, not evaluated):
+    // nothing needs to be excluded.
+    false
+}
